@@ -6,7 +6,7 @@
                7 model step = None  12 episode not finished  20 instance not well-formed
                21 the model's own schedule is rejected by the specification (cannot happen: FFSP_valid) *)
 From Coq Require Import ZArith List Bool Lia ZifyBool Arith.
-From RL4CO Require Import Base.FFSPLists Spec.FlowShop Env.FFSP Env.SMTWTP Env.SchedBatch2 Harness.HC07_ffsp.
+From RL4CO Require Import Base.FFSPLists Spec.FlowShop Env.FFSP Env.SMTWTP Env.SchedBatch2 Env.FFSPBound Harness.HC07_ffsp.
 Import ListNotations.
 Open Scope Z_scope.
 
@@ -44,7 +44,10 @@ Definition check_C02_ffsp (c : HC07F.ffsp_case) : Z :=
            if negb (code =? 0) then code
            (* exactly J*S real-job steps, and no more steps than the clock reading of the finishing state + 1 *)
            else if negb (Nat.eqb jobs (FFSP.nJ i * FFSP.nS i)) then 10
-           else if clock + 1 <? Z.of_nat active then 10 else 0
+           else if clock + 1 <? Z.of_nat active then 10
+           (* ... and within the instance-level bound (C02_ffsp_step_bound) *)
+           else if (Z.of_nat (FFSP.nJ i * FFSP.nS i) * (Dall i + 2) + 2) * Z.of_nat (FFSP.nS i * FFSP.nM i) <? Z.of_nat active then 10
+           else 0
        end.
 
 (* ---------------------------------------------------------------- FFSP, C03 *)
